@@ -2,7 +2,7 @@ import PySMT.Proofs.C10NNF
 import PySMT.Proofs.C10AIG
 import PySMT.Proofs.C10Partition
 import PySMT.Proofs.C10SelfSub
-import PySMT.Proofs.C10Times
+import PySMT.Proofs.C10TimesShape
 import PySMT.Proofs.C10PrenexMain
 import PySMT.Proofs.C10Propagate
 /-!
@@ -96,6 +96,10 @@ theorem times_equiv (t : Term) (hwf : t.wf = true) (I : Interp) (hI : I.WF) :
 theorem times_wf (t : Term) (hwf : t.wf = true) :
     (timesDistr t).wf = true ∧ (timesDistr t).typeOf = t.typeOf := (times_spec t hwf).1
 
+/-- the advertised normal form: no product and no sum has a sum among its arguments, no subtraction is left -/
+theorem times_shape (t : Term) (hwf : t.wf = true) : timesNormal (timesDistr t) = true :=
+  Rewritings.times_shape t hwf
+
 /-! ## prenex normal form -/
 
 /-- the result (when the walk returns one) is a quantifier prefix over a quantifier-free matrix,
@@ -103,22 +107,16 @@ for every input whose quantifiers occur in Boolean positions only — with or wi
 theorem prenex_shape (fresh : Nat → String) (t r : Term) (hq : quantInBoolPos t = true)
     (h : prenex fresh t = some r) : isPrenex r = true := Rewritings.prenex_shape fresh t r hq h
 
-/-- the full statement of the equivalence (every supply of fresh names that avoids the symbols of
-the input): **not proved** — covered by the correspondence run and the search only -/
-def prenex_equiv_full_statement : Prop :=
-  ∀ (fresh : Nat → String) (t r : Term), t.wf = true → t.typeOf = some .bool →
-    (∀ n, ∀ τ, Sym.var (fresh n) τ ∉ t.fv) → (∀ n m, fresh n = fresh m → n = m) →
-    prenex fresh t = some r → ∀ I : Interp, I.WF → eval I r = eval I t
-
-/-- `_partial`: proved for the runs in which no bound variable has to be renamed (`noRename`: the
-supply counter is untouched, i.e. no bound variable clashes with a variable reserved in an enclosing
-conjunction / disjunction) and binder lists without repeated variables (`nodupBinders`).  Missing: the
-alpha-renaming step (`mergeBlocks` with a non-empty clash set), which needs the renaming lemma for
-arbitrary sorts and freshness invariants of the supply. -/
-theorem prenex_equiv_partial (fresh : Nat → String) (t r : Term) (hwf : t.wf = true) (hty : t.typeOf = some .bool)
-    (hnd : nodupBinders t = true) (hnr : noRename fresh t = true) (h : prenex fresh t = some r)
-    (I : Interp) (hI : I.WF) : eval I r = eval I t :=
-  prenex_equiv_noRename fresh t r hwf hty hnd hnr h I hI
+/-- **`prenex_equiv`**: for every formula whose quantifiers occur in Boolean positions
+(`quantInBoolPos`) and whose binders bind plain symbols (`plainBinders`), and every supply `fresh` of
+pairwise different names (`Inj`) none of which is the name of a symbol occurring — free, bound or
+applied — in the formula (`Avoids`; the correspondence run checks this of the real `FormulaManager`), the
+prenex normal form has the value of the input under every interpretation.  This covers the
+alpha-renaming of clashing bound variables and binders that list a variable twice. -/
+theorem prenex_equiv (fresh : Nat → String) (hinj : Inj fresh) (t r : Term) (hwf : t.wf = true)
+    (hty : t.typeOf = some .bool) (hq : quantInBoolPos t = true) (hpl : plainBinders t = true)
+    (hav : Avoids fresh t) (h : prenex fresh t = some r) (I : Interp) (hI : I.WF) : eval I r = eval I t :=
+  prenex_equiv_main hinj t r hwf hty hq hpl hav h I hI
 
 /-! ## top-level propagation -/
 
@@ -130,15 +128,16 @@ def propagate_equiv_full_statement : Prop :=
   ∀ (rank : Term → Int) (t r : Term), t.wf = true → t.typeOf = some .bool →
     propagate rank t = some r → ∀ I : Interp, I.WF → eval I r = eval I t
 
-/-- `_partial`: proved for quantifier-free formulas (no binder, hence no capture), for every ranking
-of the symbols (`rank` = the node ids the disjoint set compares) and including the early `False` on
-two different constants in one class. Missing: formulas with binders none of which binds a symbol of a
-top-level definition (needs the substitution lemma below binders). `do_simplify=True` composes this
-with the simplifier, which is the subject of C01. -/
+/-- `_partial` (the full statement above is false): proved for every formula in which no symbol of a
+top-level definition `symbol = symbol/constant` is bound anywhere in the formula (`propagateSafe`, a
+decidable guard that excludes exactly the capture of F51; in particular all quantifier-free formulas),
+for every ranking of the symbols (`rank` = the node ids the disjoint set compares), including the early
+`False` on two different constants in one class.  `do_simplify=True` composes this with the simplifier,
+which is the subject of C01. -/
 theorem propagate_equiv_partial (rank : Term → Int) (t r : Term) (hwf : t.wf = true)
-    (hty : t.typeOf = some .bool) (hqf : t.isQF = true) (h : propagate rank t = some r)
+    (hty : t.typeOf = some .bool) (hsafe : propagateSafe t = true) (h : propagate rank t = some r)
     (I : Interp) (hI : I.WF) : eval I r = eval I t :=
-  propagate_equiv_qf rank t r hwf hty hqf h I hI
+  propagate_equiv_safe rank t r hwf hty hsafe h I hI
 
 /-! ## non-vacuity: the hypotheses are satisfiable by non-trivial formulas and interpretations -/
 section Examples
@@ -153,14 +152,14 @@ private def t0 : Term :=
           .mkNot (.mkIte (.sym p) (.sym q) (.node .le [.sym x, .int 1] .none))]
 
 local macro "term_eval" : tactic => `(tactic| (
-  simp only [Term.wf, Term.typeOf, boolQuants, nodupBinders, nodupB, quantInBoolPos,
+  simp only [Term.wf, Term.typeOf, boolQuants, plainBinders, quantInBoolPos,
     Term.isQF, Term.subterms, Op.isQuantifier, Term.op,
     Term.mkForall, Term.mkAnd, Term.mkOr, Term.mkNot, Term.mkIte, Term.sym, Term.int, Sym.var, List.map, List.all,
     List.flatten, List.append, t0, p, q, b, x] <;>
   decide))
 
 example : t0.wf = true ∧ t0.typeOf = some .bool := ⟨by term_eval, by term_eval⟩
-example : boolQuants t0 = true ∧ nodupBinders t0 = true ∧ quantInBoolPos t0 = true :=
+example : boolQuants t0 = true ∧ plainBinders t0 = true ∧ quantInBoolPos t0 = true :=
   ⟨by term_eval, by term_eval, by term_eval⟩
 
 /-- an interpretation that is well-formed and has an exact Boolean domain -/
@@ -194,16 +193,27 @@ example : selfSub (.mkExists [b] (.mkNot (.sym b))) = Term.tt := by
   simp [selfSub, selfSubVars, selfSubStep, substT.eq_def, lookupT, bodyMap, rebuild, mkNot, Term.mkExists, Term.mkNot,
     Term.sym, Term.tt, b, Sym.var]
 
-/-- `(∀ b. b ∨ p) ∧ q` is prenexed without drawing a fresh symbol, and the walk returns a result -/
-private def t1 : Term := .mkAnd [.mkForall [b] (.mkOr [.sym b, .sym p]), .sym q]
+/-- `(∀ b. b ∨ p) ∧ b` : the bound `b` clashes with the free `b` and is renamed to the first fresh name -/
+private def t1 : Term := .mkAnd [.mkForall [b] (.mkOr [.sym b, .sym p]), .sym b]
 
-example : noRename (fun n => s!"%F{n}") t1 = true := by
-  simp [noRename, prenexW, prenexL, prenexNode, allSome, conjDisj, mergeArgs, mergeBlocks, prenexQuant, dedupSyms,
-    boundOf, mkOr, Term.fv, t1, Term.mkAnd, Term.mkForall, Term.mkOr, Term.sym, p, q, b, Sym.var]
+private def freshEx (n : Nat) : String := String.ofList ('%' :: List.replicate n 'f')
 
-example : (prenex (fun n => s!"%F{n}") t1).isSome = true := by
-  simp [prenex, prenexW, prenexL, prenexNode, allSome, conjDisj, mergeArgs, mergeBlocks, prenexQuant, dedupSyms,
-    boundOf, mkOr, Term.fv, t1, Term.mkAnd, Term.mkForall, Term.mkOr, Term.sym, p, q, b, Sym.var]
+example : prenex freshEx t1 =
+    some (.mkForall [Sym.var (freshEx 0) .bool] (.mkAnd [.mkOr [.sym (Sym.var (freshEx 0) .bool), .sym p], .sym b])) := by
+  simp [prenex, prenexW, prenexL, prenexNode, allSome, conjDisj, mergeArgs, mergeBlocks, renFrom, prenexQuant,
+    dedupSyms, boundOf, mkOr, mkAnd, mkForall, wrapBlocks, substT.eq_def, lookupT, bodyMap, rebuild, Term.fv, t1,
+    Term.mkAnd, Term.mkForall, Term.mkOr, Term.sym, p, b, Sym.var]
+
+example : Inj freshEx := by
+  intro i j h
+  have := congrArg String.length h
+  simpa [freshEx] using this
+
+example : Avoids freshEx t1 := by
+  intro s hs k
+  simp [allSyms, t1, Term.mkAnd, Term.mkForall, Term.mkOr, Term.sym, p, b, Sym.var] at hs
+  rcases hs with rfl | rfl | rfl | rfl <;>
+    (intro h; have := congrArg String.toList h; simp [freshEx] at this)
 
 private def y : Sym := Sym.var "y" .int
 
@@ -216,6 +226,16 @@ example : propagate (fun _ => 0) t2 =
   simp [propagate, buildLeader, conjPartition, conjLeaves, dedup, isDefinition, isSymbol, isConstant, Term.op,
     Op.isConstant, dsAdd, Leader.ensure, Leader.get, lookupT, compareRank, substT.eq_def, bodyMap, rebuild,
     mkAnd, t2, Term.mkAnd, Term.mkEq, Term.sym, Term.int, x, y, Sym.var]
+
+/-- `y = x ∧ ∃b. (b ∨ x ≤ y)` : a binder, but not of a defined symbol — the guard holds; for
+`y = x ∧ ∀x. x ≤ y` (finding F51) it does not -/
+example : propagateSafe (.mkAnd [.mkEq (.sym y) (.sym x), .mkExists [b] (.mkOr [.sym b, .node .le [.sym x, .sym y] .none])])
+    = true ∧
+    propagateSafe (.mkAnd [.mkEq (.sym y) (.sym x), .mkForall [x] (.node .le [.sym x, .sym y] .none)]) = false := by
+  constructor <;>
+  simp [propagateSafe, defTerms, boundVars, conjPartition, conjLeaves, dedup, isDefinition, isSymbol, isConstant,
+    Term.op, Op.isConstant, Term.fv, Term.mkAnd, Term.mkEq, Term.mkExists, Term.mkForall, Term.mkOr, Term.sym, x, y, b,
+    Sym.var]
 
 /-- `(x + 1) * y` is distributed -/
 example : timesDistr (.node .times [.node .plus [.sym x, .int 1] .none, .sym y] .none) =
